@@ -6,31 +6,39 @@ from __future__ import annotations
 import importlib
 
 
-def to_json(x, classes, depth=0):
+def to_json(x, classes, depth=0, memo=None):
+    """JSON form of a value.  `memo` (shared by all arguments of one call) keeps object identity: the second occurrence
+    of an object is written as {"$ref": n}, so aliasing between arguments (a chunk that is also in self's queue) and
+    back references (channel -> transport -> channel) survive the copy."""
+    if memo is None:
+        memo = {}
     if isinstance(x, (bytes, bytearray)):
         return {"$bytes": bytes(x).hex()}
     if isinstance(x, bool) or x is None or isinstance(x, (int, float, str)):
         return x
     if isinstance(x, tuple):
-        return {"$tuple": [to_json(e, classes, depth + 1) for e in x]}
+        return {"$tuple": [to_json(e, classes, depth + 1, memo) for e in x]}
     if isinstance(x, (list,)) or type(x).__name__ == "deque":
-        return [to_json(e, classes, depth + 1) for e in x]
+        return [to_json(e, classes, depth + 1, memo) for e in x]
     if isinstance(x, set):
-        return {"$set": [to_json(e, classes, depth + 1) for e in x]}
+        return {"$set": [to_json(e, classes, depth + 1, memo) for e in x]}
     if isinstance(x, dict):
-        return {"$dict": [[to_json(k, classes, depth + 1), to_json(v, classes, depth + 1)] for k, v in x.items()]}
+        return {"$dict": [[to_json(k, classes, depth + 1, memo), to_json(v, classes, depth + 1, memo)] for k, v in x.items()]}
     import enum
     if isinstance(x, enum.Enum):
         return {"$enum": type(x).__qualname__, "name": x.name}
     cname = type(x).__name__
-    if cname in classes and depth < 6:
-        out = {"$class": cname}
+    if cname in classes and id(x) in memo:
+        return {"$ref": memo[id(x)]}
+    if cname in classes and depth < 12:
+        memo[id(x)] = len(memo) + 1
+        out = {"$class": cname, "$oid": memo[id(x)]}
         for f in classes[cname]:
             name = f
             if f.startswith("__") and not f.endswith("__"):
                 name = f"_{cname.lstrip('_')}{f}"
             if hasattr(x, name):
-                out[f] = to_json(getattr(x, name), classes, depth + 1)
+                out[f] = to_json(getattr(x, name), classes, depth + 1, memo)
         # attributes the sidecar does not declare (e.g. state added by a later change) travel along unchanged,
         # so that the rebuilt object is a faithful copy
         try:
@@ -43,7 +51,7 @@ def to_json(x, classes, depth=0):
             if name.startswith(pref):
                 plain = "__" + name[len(pref):]
             if plain not in out:
-                out[plain] = to_json(val, classes, depth + 1)
+                out[plain] = to_json(val, classes, depth + 1, memo)
         return out
     # an object the contracts treat as an opaque reference: identified by name, rebuilt as one object per name
     return {"$opaque": getattr(x, "name", None) or f"{cname}@{id(x)}"}
@@ -330,23 +338,44 @@ def RTCSctpTransport(rng, inst):
     t._advanced_peer_ack_tsn = (tsn - 1) % (1 << 32)
     t._forward_tsn_chunk = None
     q = collections.deque()
-    n = rng.choice([0, 1, 2, 3, 4, 6])
-    n_ab = rng.randrange(n + 1)
+    # messages of 1-3 fragments (B/E bits as _send sets them); a prefix of whole messages is abandoned
+    nmsg = rng.choice([0, 1, 2, 3, 4])
+    mab = rng.randrange(nmsg + 1)
     seqs = {1: rng.choice([0, 65534, 65535]), 2: rng.choice([0, 7, 65535])}
-    for i in range(n):
-        c = DataChunk()
+    n = 0
+    for mi_ in range(nmsg):
         sid = rng.choice([1, 1, 2])
-        c.flags = rng.choice([3, 3, 7])
-        c.tsn = (tsn + i) % (1 << 32)
-        c.stream_id = sid
-        c.stream_seq = seqs[sid]
-        seqs[sid] = (seqs[sid] + 1) % 65536
-        c.protocol = 51
-        c.user_data = b"x"
-        c._abandoned = i < n_ab
-        c._acked = False
-        q.append(c)
+        unordered = 4 if rng.random() < 0.25 else 0
+        frags = rng.choice([1, 1, 2, 3])
+        maxrt = rng.choice([None, None, 0, 1])
+        for fi_ in range(frags):
+            c = DataChunk()
+            c.flags = unordered | (2 if fi_ == 0 else 0) | (1 if fi_ == frags - 1 else 0)
+            c.tsn = (tsn + n) % (1 << 32)
+            c.stream_id = sid
+            c.stream_seq = seqs[sid]
+            c.protocol = 51
+            c.user_data = b"x"
+            c._abandoned = mi_ < mab
+            c._acked = False
+            c._retransmit = (not c._abandoned) and rng.random() < 0.3
+            c._max_retransmits = maxrt
+            c._sent_count = rng.choice([1, 1, 2])
+            c._expiry = rng.choice([None, None, 0.0, 4e9])
+            c._sent_time = None
+            c._misses = 0
+            c._book_size = 1
+            q.append(c)
+            n += 1
+        if not unordered:
+            seqs[sid] = (seqs[sid] + 1) % 65536
     t._sent_queue = q
+    if q and rng.random() < 0.5:
+        # the retransmission path asks whether a chunk is to be given up (judged by the scenario search for that unit)
+        try:
+            t._maybe_abandon(rng.choice(list(q)))
+        except Exception:
+            pass
     # data-channel side: a table of registered channels (ids of one parity, as the role fixes it) and an empty queue
     from aiortc.rtcdatachannel import RTCDataChannel as CH, RTCDataChannelParameters as P
     t._data_channels = {}
@@ -375,6 +404,25 @@ def RTCSctpTransport(rng, inst):
     t._reconfig_request_seq = tsn
     t._reconfig_response_seq = 0
     t._local_tsn = (tsn + n) % (1 << 32)
+    from aiortc.rtcsctptransport import InboundStream as IS
+    t._inbound_streams = {}
+    for sid in list(t._data_channels) + [8]:
+        if rng.random() < 0.6:
+            st_ = IS()
+            st_.sequence_number = rng.choice([0, 1, 7, 65535])
+            t._inbound_streams[sid] = st_
+    t._last_received_tsn = rng.choice([0, 9, (1 << 32) - 1])
+    if t._association_state == T.State.ESTABLISHED and rng.random() < 0.3:
+        # the peer resets some of its outgoing streams (judged by the scenario search for that unit)
+        import asyncio
+        from aiortc.rtcsctptransport import StreamResetOutgoingParam as SRO
+        ids = [k for k in list(t._inbound_streams) + list(t._data_channels) if rng.random() < 0.7]
+        req = SRO(request_sequence=rng.choice([0, 77, (1 << 32) - 1]), response_sequence=0,
+                  last_tsn=rng.choice([t._last_received_tsn, (t._last_received_tsn + 5) % (1 << 32)]), streams=ids)
+        try:
+            asyncio.new_event_loop().run_until_complete(t._receive_reconfig_param(req))
+        except Exception:
+            pass
     # stream resets: some registered channels are closing; the first few are in an outstanding request, the rest queued
     if t._association_state == T.State.ESTABLISHED and t._data_channels and rng.random() < 0.6:
         from aiortc.rtcsctptransport import StreamResetOutgoingParam, StreamResetResponseParam
